@@ -7,6 +7,9 @@
 import Valida.Tree
 import Valida.Html
 import ValidaProofs.Lemmas.Basic
+import ValidaProofs.Lemmas.C20Tree
+import ValidaProofs.Lemmas.C20Html
+import ValidaProofs.Lemmas.C20Nest
 namespace ValidaProofs
 open Valida ValidaGen
 
@@ -14,7 +17,7 @@ open Valida ValidaGen
 
 /-- the three repairs `to_tree` depends on are present in the source -/
 theorem C20_tree_flags : treeRequiredSticky = true ∧ treeImplicitTypeGuard = true ∧ treeFromPathViaParts = true := by
-  sorry
+  decide
 
 /-- adding parents: every node's parent precedes it and is its path prefix -/
 theorem C20_parents (sorted : List TItem) (refs : List (List String × Int)) (n : Nat) (out : List TItem)
@@ -23,54 +26,54 @@ theorem C20_parents (sorted : List TItem) (refs : List (List String × Int)) (n 
     out.length = sorted.length ∧
     ∀ (i : Nat) (it : TItem), out[i]? = some it → it.parent < ((n + i : Nat) : Int) ∧
       (∃ r ∈ (List.zip (List.range out.length) out).map (fun ix => (ix.2.pathStr, ((n + ix.1 : Nat) : Int))) ++ refs,
-        r.1 = it.pathStr.dropLast ∧ r.2 = it.parent) := by
-  sorry
+        r.1 = it.pathStr.dropLast ∧ r.2 = it.parent) :=
+  C20L.parents sorted refs n out h hrefs
 
 /-- the flat tree (no sub-tree root): parent index smaller than own index, parent's key is the key
     without its last component, the root has parent -1 -/
 theorem C20_flat_parents (rules : List TRule) (flat : List TItem) (h : toTreeFlat rules [] none none = .ok flat) :
     ∀ (i : Nat) (it : TItem), flat[i]? = some it →
       it.parent < (i : Int) ∧
-      (it.parent = -1 ∨ ∃ p, flat[it.parent.toNat]? = some p ∧ p.pathStr = it.pathStr.dropLast) := by
-  sorry
+      (it.parent = -1 ∨ ∃ p, flat[it.parent.toNat]? = some p ∧ p.pathStr = it.pathStr.dropLast) :=
+  C20L.flat_parents rules flat h
 
 /-- the tree is produced without error when every node's parent is present (prefix-closed keys) -/
 theorem C20_total_of_prefix_closed (sorted : List TItem) (refs : List (List String × Int)) (n : Nat)
     (h : ∀ (i : Nat) (it : TItem), sorted[i]? = some it →
       (∃ r ∈ refs, r.1 = it.pathStr.dropLast) ∨ (∃ j, j < i ∧ ∃ p, sorted[j]? = some p ∧ p.pathStr = it.pathStr.dropLast)) :
-    ∃ out, assignParents sorted refs n = .ok out := by
-  sorry
+    ∃ out, assignParents sorted refs n = .ok out :=
+  C20L.assignParents_total sorted refs n h
 
 /-- one step never removes a node and never changes the rule another node carries: a rule's node
     carries its index afterwards -/
 theorem C20_step_rule_node (fromStr : List String) (items : Items) (idx : Nat) (r : TRule)
     (h : r.partStrs.take fromStr.length = fromStr) :
-    ∃ it ∈ treeStep fromStr items idx r, it.pathStr = r.partStrs.drop fromStr.length ∧ it.rule = some idx := by
-  sorry
+    ∃ it ∈ treeStep fromStr items idx r, it.pathStr = r.partStrs.drop fromStr.length ∧ it.rule = some idx :=
+  C20L.step_rule_node fromStr items idx r h
 
 theorem C20_step_keeps_nodes (fromStr : List String) (items : Items) (idx : Nat) (r : TRule) :
     ∀ it ∈ items, ∃ it' ∈ treeStep fromStr items idx r, it'.pathStr = it.pathStr ∧
-      (it.rule.isSome → it.pathStr ≠ r.partStrs.drop fromStr.length → it'.rule = it.rule) := by
-  sorry
+      (it.rule.isSome → it.pathStr ≠ r.partStrs.drop fromStr.length → it'.rule = it.rule) :=
+  C20L.step_keeps_nodes fromStr items idx r
 
 /-- keys are unique: one node per path string (each rule appears once) -/
 theorem C20_step_keys_nodup (fromStr : List String) (items : Items) (idx : Nat) (r : TRule)
-    (h : (items.map (·.pathStr)).Nodup) : ((treeStep fromStr items idx r).map (·.pathStr)).Nodup := by
-  sorry
+    (h : (items.map (·.pathStr)).Nodup) : ((treeStep fromStr items idx r).map (·.pathStr)).Nodup :=
+  C20L.step_keys_nodup fromStr items idx r h
 
 /-- `required`: a key named by an always-applicable `required_keys` condition of the rule is flagged
     required after the step, whatever `allowed_keys` conditions name it too, in any order -/
 theorem C20_required_after_step (items : Items) (idx : Nat) (r : TRule) (l : TLeaf) (ks : String)
     (hall : r.cond.alwaysApplicable = true) (hl : l ∈ r.cond.leaves) (hfn : l.fn = "required_keys")
     (hk : ks ∈ l.keyStrs) (hlen : ∀ l' ∈ r.cond.leaves, l'.keyStrs.length = l'.keyDisp.length) :
-    ∃ it ∈ treeStep [] items idx r, it.pathStr = r.partStrs ++ [ks] ∧ it.required = some true := by
-  sorry
+    ∃ it ∈ treeStep [] items idx r, it.pathStr = r.partStrs ++ [ks] ∧ it.required = some true :=
+  C20L.required_after_step items idx r l ks hall hl hfn hk hlen
 
 /-- … and a condition under `or` / `xor` is not always applicable: it flags nothing -/
 theorem C20_not_always_applicable (items : Items) (idx : Nat) (r : TRule) (hall : r.cond.alwaysApplicable = false) :
     ∀ it ∈ treeStep [] items idx r, it.required.isSome →
-      ∃ it₀ ∈ items, it₀.pathStr = it.pathStr ∧ it₀.required = it.required := by
-  sorry
+      ∃ it₀ ∈ items, it₀.pathStr = it.pathStr ∧ it₀.required = it.required :=
+  C20L.not_always_applicable items idx r hall
 
 /-- flat and nested forms contain the same nodes -/
 def TNode.flatten : TNode → List TItem
@@ -84,19 +87,23 @@ decreasing_by
 theorem C20_nested_same_nodes (flat : List TItem)
     (hpar : ∀ (i : Nat) (it : TItem), flat[i]? = some it → it.parent < (i : Int) ∧ -1 ≤ it.parent) :
     ((toTreeNested flat).flatMap TNode.flatten).Perm flat := by
-  sorry
+  refine C20L.nested_perm flat hpar TNode.flatten ?_
+  intro item cs
+  rw [TNode.flatten]
+  congr 1
+  rw [← List.flatMap_map (f := Subtype.val) (g := TNode.flatten), List.attach_map_subtype_val]
 
 /-! ### the HTML -/
 
 /-- `html.escape` leaves none of `< > " '` and every `&` it produces starts an entity -/
 theorem C20_escape_safe (s : String) :
-    ∀ c ∈ (htmlEscape s).toList, c ≠ '<' ∧ c ≠ '>' ∧ c ≠ '"' ∧ c ≠ '\'' := by
-  sorry
+    ∀ c ∈ (htmlEscape s).toList, c ≠ '<' ∧ c ≠ '>' ∧ c ≠ '"' ∧ c ≠ '\'' :=
+  C20L.htmlEscape_safe s
 
 /-- the back-tick rewriting only ever emits balanced `<code>…</code>` pairs around escaped text -/
 theorem C20_code_scan_balanced (fuel : Nat) (acc cs : List Char) (stack : List String) (rest : List Tok) :
-    dyck stack (codeScanFuel fuel acc cs ++ rest) = dyck stack rest := by
-  sorry
+    dyck stack (codeScanFuel fuel acc cs ++ rest) = dyck stack rest :=
+  C20L.codeScanFuel_neutral fuel acc cs stack rest
 
 /-- … and its text tokens carry exactly the characters of the paragraph, minus the matched ticks -/
 theorem C20_code_scan_text_escaped (fuel : Nat) (acc cs : List Char)
@@ -105,16 +112,17 @@ theorem C20_code_scan_text_escaped (fuel : Nat) (acc cs : List Char)
       | .esc s => ∀ c ∈ s.toList, c ≠ '<' ∧ c ≠ '>' ∧ c ≠ '"'
       | .op tag attrs => tag = "code" ∧ attrs = ""
       | .cl tag => tag = "code"
-      | _ => False := by
-  sorry
+      | _ => False :=
+  C20L.codeScanFuel_tok fuel acc cs h
 
 /-- the rendering of a tree is well-formed: every tag closed, in order – for every tree, every depth,
     every anchor root -/
 theorem C20_html_dyck (fuel : Nat) (nodes : List HtmlNode) (parentPath : Option String) (anchor : String)
     (headStart : Nat) (showRoot : Bool) (depth : Nat) (stack : List String) (rest : List Tok) :
     dyck stack (writeTree fuel nodes parentPath anchor headStart showRoot depth ++ rest) = dyck stack rest ∧
-    dyck stack (writeChildren fuel nodes parentPath anchor headStart showRoot depth ++ rest) = dyck stack rest := by
-  sorry
+    dyck stack (writeChildren fuel nodes parentPath anchor headStart showRoot depth ++ rest) = dyck stack rest :=
+  ⟨C20L.wt_neutral anchor headStart showRoot fuel nodes parentPath depth stack rest,
+   C20L.wc_neutral anchor headStart showRoot fuel nodes parentPath depth stack rest⟩
 
 /-- schema-supplied text (keys, type texts, condition text, doc paragraphs and examples) only ever
     appears in `esc` tokens, whose content is free of `< > "` -/
@@ -123,7 +131,7 @@ theorem C20_html_text_escaped (fuel : Nat) (nodes : List HtmlNode) (parentPath :
     ∀ t ∈ writeTree fuel nodes parentPath anchor headStart showRoot depth, match t with
       | .esc s => ∀ c ∈ s.toList, c ≠ '<' ∧ c ≠ '>' ∧ c ≠ '"'
       | .raw s => s = anchor
-      | _ => True := by
-  sorry
+      | _ => True :=
+  C20L.wt_ok anchor headStart showRoot fuel nodes parentPath depth
 
 end ValidaProofs
